@@ -181,3 +181,57 @@ def json_rounds(t, i, withdoc):
 
 ob("C08", "P1.rounds.json_schema", {"t": R(0, len(JTYPES) - 1), "i": R(-1, 1), "withdoc": BOOL}, T=400, funcs=FORMAT_FUNCS["json_schema"], assumes=[ADHOC_SHIMS_DOC],
    bound="json_schema emit->parse three times on types %r (Literal members with '.', '-', '+', space), int default -1..1, description present or not: each round equals the previous" % (JTYPES,))(json_rounds)
+
+
+# sqlalchemy: round n+1 == round n for 4 rounds; descriptions with every kind of tail (full stops are stripped and re-added by this format) ---------
+SQL_TAILS = ("", ".", "..", "...", " .", ",", "?", ". ", ".)", "etc.")
+SQL_TYPES = ("str", "int", "float", "bool", "Optional[str]", "Literal['a', 'b']", "dict", "Optional[int]")
+SQL_DFLT = {"str": "v", "int": 3, "float": 0.5, "bool": False, "Optional[str]": "v", "Literal['a', 'b']": "a", "Optional[int]": 2}
+
+
+def _sql_rounds(variant, symbolic_tail):
+    def body(tail, t, dflt, x=46, y=46):
+        from harness.c05 import emit_parse
+
+        tl, typ = SQL_TAILS[0], SQL_TYPES[0]
+        for k in range(1, len(SQL_TAILS)):
+            if tail == k:
+                tl = SQL_TAILS[k]
+        for k in range(1, len(SQL_TYPES)):
+            if t == k:
+                typ = SQL_TYPES[k]
+        if symbolic_tail:
+            tl = chr(x) + chr(y)
+        b = {"typ": typ, "doc": "the text" + tl}
+        if dflt and typ in SQL_DFLT:
+            b["default"] = SQL_DFLT[typ]
+        ir0 = {"name": "Config", "doc": "Header line.", "type": "static", "params": OrderedDict((("id", {"typ": "int", "doc": "[PK] the id"}), ("b", b))),
+               "returns": OrderedDict((("return_type", {"typ": "int", "doc": "the result", "default": 1}),)) if tail % 2 else None}
+        try:
+            prev = emit_parse(variant, ir0)[1]
+        except Exception:
+            return ""  # the first round may reject
+        for n in (2, 3, 4):
+            try:
+                nxt = emit_parse(variant, prev)[1]
+            except Exception as e:
+                return "round %d raised %s: %s on the output of round %d" % (n, type(e).__name__, e, n - 1)
+            d = ireq(prev, nxt)
+            if d:
+                return "round %d vs %d: %s" % (n - 1, n, d)
+            prev = nxt
+        return ""
+
+    return body
+
+
+from harness.c05 import FUNCS as _SQLF  # noqa: E402
+
+for _variant in ("class", "table"):
+    ob("C08", "P1.rounds.sqlalchemy_%s" % _variant, {"tail": R(0, len(SQL_TAILS) - 1), "t": R(0, len(SQL_TYPES) - 1), "dflt": BOOL}, T=900, tpath=120, funcs=_SQLF,
+       assumes=[ADHOC_SHIMS_DOC], bound="sqlalchemy %s emit->parse four times: column description 'the text'+tail for tails %r x types %r x with/without default, "
+       "return entry present for odd tails: each round equals the previous (solver-enumerated)" % (_variant, SQL_TAILS, SQL_TYPES))(_sql_rounds(_variant, False))
+    ob("C08", "P1.rounds.sqlalchemy_%s.tail2" % _variant, {"tail": R(0, 0), "t": R(0, 1), "dflt": BOOL, "x": PR, "y": PR}, pre="x != 47 and y != 47", T=2400, tpath=120,
+       tier="thorough", funcs=_SQLF, assumes=[ADHOC_SHIMS_DOC],
+       bound="sqlalchemy %s emit->parse four times: str/int column whose description is 'the text' + ANY two printable characters (except '/'), with/without default" % _variant,
+       )(_sql_rounds(_variant, True))
